@@ -247,6 +247,11 @@ func (t *WeightedMerkleTrie) delete(node Node, prefix, key []byte) (uint64, Node
 		}
 		return change, n, nil
 	case *valueNode:
+		if len(key) != 0 {
+			// a value above the full key depth (only in a trie imported from a crafted export)
+			// belongs to a shorter key
+			return 0, n, ErrNotFound
+		}
 		t.pendingDeleted = append(t.pendingDeleted, n.Hash())
 		return n.weight, nil, nil
 	case nil:
